@@ -23,6 +23,8 @@ def run(prog, chk):
         "uniXXXX / uXXXXX switch at 0xFFFF with %04X; ligature names only from BMP parts; lib-supplied names win when non-empty (R11.5)",
         "the invalid-character pattern is the complement of [0-9A-Za-z_.] (R11.6)",
     ]
+    chk.decided += ["an explicit useProductionNames reaches the renaming step as given: PostProcessor.process hands process_glyph_names its untouched parameter, and inside process_glyph_names the lib "
+                    "keys are only consulted under `useProductionNames is None` (production names ON means renamed, whatever the UFO lib says) (R11.8)"]
     chk.not_decided += ["byte identity of the other tables (fontTools compile / reload)", "the glyph order itself"]
     chk.decided += ["each variable font is post-processed with its own UFO / info / glyph set, never with compiler state of the last interpolable sub-space (R11.7)"]
     chk.guard(r111, prog, chk)
@@ -32,6 +34,7 @@ def run(prog, chk):
     chk.guard(r115, prog, chk)
     chk.guard(r116, prog, chk)
     chk.guard(r117, prog, chk)
+    chk.guard(r118, prog, chk)
 
 
 def _keep_var(prog, f) -> str:
@@ -457,7 +460,34 @@ def r117(prog, chk):
     chk.minimum("R11.7", 1)
 
 
+# ----------------------------------------------------------------------------- R11.8
+def r118(prog, chk):
+    ix = prog.ix
+    pr = ix.get_method(PP, "process", own=True)
+    calls = [c for c in calls_named(pr, "process_glyph_names")]
+    need(len(calls) == 1, f"cannot interpret {pr.short}: process_glyph_names call")
+    a = A.arg_at(calls[0], 0, "useProductionNames")
+    ok = isinstance(a, ast.Name) and a.id in pr.params() and all(d.kind == "param" for d in prog.reaching(pr, a.id, a)) \
+        and not [g for g in may_conds(prog, pr, calls[0]) if g.kind in ("if", "boolop", "ifexp", "while")]
+    chk.ob("R11.8", f"{pr.short}|process_glyph_names gets the caller's useProductionNames, unconditionally", ok, where(pr, calls[0]), detail=T(calls[0], 60),
+           message=f"{pr.short}: the useProductionNames argument is rewritten (or the renaming step skipped) before process_glyph_names: an explicit request for production names "
+                   f"no longer produces them")
+    pg = ix.get_method(PP, "process_glyph_names", own=True)
+    pname = pg.params()[1]
+    bad = []
+    for n in A.body_nodes(pg.node):
+        if isinstance(n, ast.Assign) and any(isinstance(t, ast.Name) and t.id == pname for t in n.targets):
+            fs = facts(prog, pg, n)
+            if not any(o == "is" and l == pname and r == "None" for o, l, r in fs):
+                bad.append(n)
+    chk.ob("R11.8", f"{pg.short}|the lib keys only fill in an absent argument", not bad, where(pg, bad[0]) if bad else where(pg), detail=f"assignments of {pname} under `{pname} is None`",
+           message=f"{pg.short}: `{T(bad[0], 60) if bad else ''}` overrides an explicit useProductionNames")
+    chk.minimum("R11.8", 2)
+
+
 MUTANTS = [
+    M("explicit useProductionNames ignored when the lib says keepGlyphNames=False (seeded C11k)", "ufo2ft/postProcessor.py", "PostProcessor.process",
+      "self.process_glyph_names(useProductionNames)", "if useProductionNames is not None and (not self.ufo.lib.get(KEEP_GLYPH_NAMES, True)):\n    useProductionNames = None\nself.process_glyph_names(useProductionNames)", rule="R11.8"),
     M("intermediate save of the renaming reload does not recalculate bounding boxes (seeded C11i)", "ufo2ft/postProcessor.py", "_reloadFont",
       "font.save(stream)", "recalcBBoxes, font.recalcBBoxes = (font.recalcBBoxes, False)\nfont.save(stream)\nfont.recalcBBoxes = recalcBBoxes", rule="R11.1"),
     M("reload re-opens the font with recalcBBoxes off", "ufo2ft/postProcessor.py", "_reloadFont",
